@@ -862,7 +862,9 @@ func c11Programs(thorough bool) [][]c11Node {
 	// it, lands where the flat list puts it
 	{
 		firsts := []c11Node{{Kind: "get", Path: "/a", NH: 1}, {Kind: "post", Path: "/a", NH: 1}, {Kind: "combo-get", Path: "/a", NH: 1}, {Kind: "combo-post", Path: "/a", NH: 1}, {Kind: "any", Path: "/a", NH: 1}}
-		seconds := []c11Node{{Kind: "get", Path: "/a", NH: 2}, {Kind: "post", Path: "/a", NH: 1}, {Kind: "combo-get", Path: "/a", NH: 1}, {Kind: "combo-post", Path: "/a", NH: 2}, {Kind: "combo-get", Path: "/v", NH: 1}}
+		seconds := []c11Node{{Kind: "get", Path: "/a", NH: 2}, {Kind: "post", Path: "/a", NH: 1}, {Kind: "combo-get", Path: "/a", NH: 1}, {Kind: "combo-post", Path: "/a", NH: 2}, {Kind: "combo-get", Path: "/v", NH: 1},
+			// a registration for all methods that is refused for one of them: the methods in front of it are registered
+			{Kind: "any", Path: "/a", NH: 1}, {Kind: "routes-star", Path: "/a", NH: 1}}
 		afters := []c11Node{{Kind: "get", Path: "/v", NH: 1}, {Kind: "post", Path: "/{x}", NH: 1}, {Kind: "combo", Path: "/v", NH: 1}}
 		for _, x := range firsts {
 			for _, y := range seconds {
